@@ -158,9 +158,33 @@ def generate(problems):
     # default_env setter
     de = [f for f in cls.body if isinstance(f, ast.FunctionDef) and f.name == "default_env" and f.decorator_list
           and "setter" in ast.unparse(f.decorator_list[0])]
-    default_env_body = _flat_stmts(de[0].body)[:5] if de else []
+    default_env_body = _flat_stmts(de[0].body) if de else []
     if not de:
         problems.append("SourcesOrder: default_env setter not found")
+
+    # 7. subcommand levels: what a sub-parser inherits when it is added, how its own parse_args is called, what
+    #    handle_subcommands merges under its namespace, how _parse_common resolves `env`
+    sub_cls = _find(actions.body, ast.ClassDef, "_ActionSubCommands")
+    add_sub = method("add_subcommand", sub_cls) if sub_cls else None
+    sub_call = method("__call__", sub_cls) if sub_cls else None
+    handle = method("handle_subcommands", sub_cls) if sub_cls else None
+    add_subs = method("add_subcommands")
+    pcommon = method("_parse_common")
+    pargs = method("parse_args")
+    if None in (add_sub, sub_call, handle, add_subs, pcommon, pargs):
+        problems.append("SourcesOrder: subcommand functions not found")
+        return
+    sub_inherit = [s for s in _flat_stmts(add_sub.body) if s.startswith("parser.env_prefix") or s.startswith("parser.default_env")
+                   or s.startswith("if parser._subparsers") or "level order" in s]
+    sub_inherit += [s for s in _flat_stmts(add_subs.body) if "env_prefix" in s]
+    sub_call_body = _flat_stmts(sub_call.body)
+    handle_body = _flat_stmts(handle.body)
+    handle_withs = [ast.unparse(i) for n in ast.walk(handle) if isinstance(n, ast.With) for i in n.items]
+    pc_all = _flat_stmts(pcommon.body)
+    pcommon_env = pc_all[:pc_all.index("if defaults")] if "if defaults" in pc_all else pc_all[:6]
+    pargs_withs = [ast.unparse(i) for n in ast.walk(pargs) if isinstance(n, ast.With) for i in n.items]
+    penv = method("parse_env")
+    penv_body = [s for s in _flat_stmts(penv.body) if "_parse_defaults_and_environ" in s or "kwargs" in s or "_parse_common" in s] if penv else []
 
     body = "namespace Jap.Gen.SourcesOrder\n"
     for name, val in (
@@ -169,6 +193,9 @@ def generate(problems):
         ("globOrder", glob_order), ("defaultConfigLoop", dcf_loop), ("applyAppendsBody", appends_body),
         ("typeHintCall", call_tail), ("prevValSource", prev_val_src), ("adaptFacts", adapt_facts),
         ("updateBody", update_body), ("envVarBody", env_var_body), ("defaultEnvSetter", default_env_body),
+        ("subInherit", sub_inherit), ("subCallBody", sub_call_body), ("handleSubcommandsBody", handle_body),
+        ("handleSubcommandsWith", handle_withs), ("parseCommonEnv", pcommon_env), ("parseArgsWith", pargs_withs),
+        ("parseEnvBody", penv_body),
     ):
         body += "def %s : List String := %s\n" % (name, lean_str_list(val))
     body += "def loadEnvStart : String := %s\n" % lean_str(lev_first)
